@@ -320,6 +320,10 @@ pub fn seq_worker(a: &WorkerArgs) -> WorkerResult {
     let prop = a.prop.clone();
 
     let result = runner.run(&strategy, |case| {
+        if crate::budget::exhausted() && !acc.borrow().failed {
+            crate::budget::skip();
+            return Ok(());
+        }
         let counting = !acc.borrow().failed;
         if counting {
             // so that a crash (abort, segfault) leaves the offending case behind
